@@ -83,3 +83,43 @@ contract(
     ensures=["result == nm[i]"],
     note="the index's name table as a ghost sequence",
 )
+
+NONDELTA = "1 <= type_num and type_num <= 4"
+contract(
+    prop=["C02"], file=P, func="pack_object_header",
+    params={"type_num": "int", "delta_base": "None", "size": "int", "object_format": "opaque"}, returns="bytearray",
+    requires=[NONDELTA, "size >= 0"],
+    ensures=[
+        # non-delta objects: type in bits 4-6 of the first byte, size = low nibble + 16 * little-endian base-128 rest,
+        # continuation bits exactly on all but the last byte  (decoded back by _decode_object_header: lemma below)
+        "len(result) >= 1",
+        "(result[0] // 16) % 8 == type_num",
+        "result[0] % 16 + 16 * le128(result, 1, len(result)) == size",
+        "all(result[k] >= 128 for k in range(0, len(result) - 1))",
+        "result[len(result) - 1] < 128",
+    ],
+    loops={1: dict(
+        invariant=[
+            "size >= 0 and 0 <= c and c < 128",
+            "all(header[k] >= 128 and header[k] <= 255 for k in range(0, len(header)))",
+            "(len(header) == 0 and c == type_num * 16 + old(size) % 16 and size == old(size) // 16) or "
+            "(len(header) >= 1 and header[0] == 128 + type_num * 16 + old(size) % 16 and c < 128 and "
+            " old(size) // 16 == le128(header, 1, len(header)) + (c + 128 * size) * 2 ** (7 * (len(header) - 1)))",
+        ],
+        decreases="size",
+        types={"header": "list[int]"},
+    )},
+    dead=[24, 25, 26, 27, 28, 29, 30, 31, 33, 34, 35],
+    note="delta types (OFS/REF) are covered by the bounded header round trip; the OFS prepend loop needs the "
+         "ofsval prepend/shift lemmas that are not yet in the lemma library",
+)
+# decoding what the encoder produced gives (type, size) back
+lemma(
+    prop=["C02"], name="object_header_roundtrip", file=P,
+    forall={"type_num": "int", "size": "int", "fmt": "opaque"},
+    assume=[NONDELTA, "size >= 0"],
+    steps=[("hdr", (P, "pack_object_header"), ["type_num", "None", "size", "fmt"]),
+           ("raw", "list(hdr)"),
+           ("dec", (P, "_decode_object_header"), ["raw"])],
+    show=["dec[0] == type_num", "dec[1] == size"],
+)
